@@ -136,14 +136,10 @@ func checkC04(c *Check) {
 			if b.EP != f.EP || !sameOrg(b.U, f.U) {
 				continue
 			}
-			if b.Fn == f.Fn && dominatesInstr(b.Ins, f.Ins) {
+			// also through helpers on either side (bind in a helper, emit in a
+			// helper called after the bind)
+			if t.Before(b, f) {
 				bound = true
-			}
-			// emit inside a helper called after the bind in the binder's function
-			for _, fl := range t.Of("flush") {
-				if fl.EP == f.EP && fl.Fn == b.Fn && sameOrg(fl.U, b.U) && dominatesInstr(b.Ins, fl.Ins) && strings.Contains(stackStr(f), funcDisplayName(fl.Fn)) {
-					bound = true
-				}
 			}
 		}
 		if bound {
